@@ -24,8 +24,9 @@ _TRANSPARENT = ("ParenExpr", "ImplicitCastExpr", "CStyleCastExpr")
 class Env:
     """parameter decl id -> (argument node, environment of the caller)"""
 
-    def __init__(self, m=None):
+    def __init__(self, m=None, fname=None):
         self.m = m or {}
+        self.fname = fname            # name of the inlined helper this frame belongs to (None: the function being read)
 
     def get(self, did):
         return self.m.get(did)
@@ -45,6 +46,8 @@ def render(n, env):
         al = _alias_of(n)
         if al is not None:
             return render(al, env)
+        if env is not None and getattr(env, "fname", None) and n.d.get("dk") == "Var" and not n.d.get("g"):
+            return "%s::%s" % (env.fname, n.d["name"])      # a local of an inlined helper: kept apart from the caller's names
         return n.d["name"]
     if k == "MemberExpr":
         base = render(n.kids[0], env) if n.kids else "?"
@@ -112,11 +115,21 @@ def is_private_helper(prog, F, G, exclude=()):
         (G.static or not any(True for H, c in prog.callers_of(G.name) if H.file != G.file))
 
 
-def flatten(prog, F, stmts, env=None, exclude=(), depth=0, stack=()):
-    """see module docstring; stmts is a list of statement nodes of F executed in order"""
+_ALSO = ()
+
+
+def flatten(prog, F, stmts, env=None, exclude=(), depth=0, stack=(), also=()):
+    """see module docstring; stmts is a list of statement nodes of F executed in order.  `also`: names of functions to inline
+    although they are not private helpers of F's file (small set-up functions of another module)"""
+    global _ALSO
     ev = []
-    for s in stmts:
-        _stmt(prog, F, s, env or Env(), exclude, depth, stack, ev)
+    old = _ALSO
+    _ALSO = tuple(also)
+    try:
+        for s in stmts:
+            _stmt(prog, F, s, env or Env(), exclude, depth, stack, ev)
+    finally:
+        _ALSO = old
     return ev
 
 
@@ -136,7 +149,7 @@ def _stmt(prog, F, s, env, exclude, depth, stack, ev):
         for kid in s.kids:
             if kid.role == "declinit":
                 _expr(prog, F, kid, env, exclude, depth, stack, ev)
-                ev.append(("store", kid.decl["name"], kid, env, s))
+                ev.append(("store", ("%s::%s" % (env.fname, kid.decl["name"])) if getattr(env, "fname", None) else kid.decl["name"], kid, env, s))
         return
     if k == "IfStmt":
         c = s.child("cond")
@@ -146,6 +159,11 @@ def _stmt(prog, F, s, env, exclude, depth, stack, ev):
         if s.child("else") is not None:
             _stmt(prog, F, s.child("else"), env, exclude, depth, stack, el)
         ev.append(("if", c, env, th, el, s))
+        return
+    if k == "DoStmt" and s.child("cond") is not None and s.child("cond").strip(casts=True).cv == 0:
+        # do { ... } while(0): the wrapper of a statement macro, executed once
+        if s.child("body") is not None:
+            _stmt(prog, F, s.child("body"), env, exclude, depth, stack, ev)
         return
     if k in ("ForStmt", "WhileStmt", "DoStmt"):
         body = []
@@ -222,8 +240,9 @@ def _call(prog, F, c, env, exclude, depth, stack, ev):
     for a in c.args:
         _expr(prog, F, a, env, exclude, depth, stack, ev)
     G = prog.fn(prog.resolve(c.callee, F.file), required=False) if c.callee else None
-    if G is not None and depth < 3 and G.name not in stack and is_private_helper(prog, F, G, exclude) and G.body is not None:
-        inner = Env({p["did"]: (a, env) for p, a in zip(G.params, c.args)})
+    if G is not None and depth < 3 and G.name not in stack and G.body is not None and \
+            (is_private_helper(prog, F, G, exclude) or G.name in _ALSO):
+        inner = Env({p["did"]: (a, env) for p, a in zip(G.params, c.args)}, fname=G.name)
         ev.append(("enter", G.name, c, env))
         _stmt(prog, G, G.body, inner, exclude, depth + 1, stack + (G.name,), ev)
         ev.append(("leave", G.name, c, env))
